@@ -450,6 +450,53 @@ Definition get_by_id (fixed : bool) (is_doc : bool) (own : list mspec) (d : obj)
 Definition own_specs (M : mtables) (c : string) : list mspec :=
   match find_mclass M c with Some k => mc_specs k | None => [] end.
 
+(* histories on one document: arbitrary edits of the document (any function: remove a component, change an id,
+   replace a component, append one ...) interleaved with look ups.  get_by_id is a function of the CURRENT document
+   and of the warning counter only: a look up leaves the document as it is and keeps nothing else. *)
+Inductive doc_op := DMutate (f : obj -> obj) | DLookup (i : string).
+
+Definition doc_step (fixed is_doc : bool) (own : list mspec) (st : obj * nat) (o : doc_op) : obj * nat :=
+  match o with
+  | DMutate f => (f (fst st), snd st)
+  | DLookup i => (fst st, g_warn (get_by_id fixed is_doc own (fst st) (snd st) i))
+  end.
+
+Definition doc_run (fixed is_doc : bool) (own : list mspec) (st : obj * nat) (ops : list doc_op) : obj * nat :=
+  fold_left (doc_step fixed is_doc own) ops st.
+
+Fixpoint mutations (ops : list doc_op) : list (obj -> obj) :=
+  match ops with
+  | [] => []
+  | DMutate f :: r => f :: mutations r
+  | DLookup _ :: r => mutations r
+  end.
+
+Definition mutate (fs : list (obj -> obj)) (d : obj) : obj := fold_left (fun x f => f x) fs d.
+
+(* the edits used in the correspondence runs, as document functions *)
+Fixpoint remove_nth {A} (k : nat) (l : list A) : list A :=
+  match l, k with
+  | [], _ => []
+  | _ :: r, O => r
+  | x :: r, S k' => x :: remove_nth k' r
+  end.
+Fixpoint update_nth {A} (k : nat) (f : A -> A) (l : list A) : list A :=
+  match l, k with
+  | [], _ => []
+  | x :: r, O => f x :: r
+  | x :: r, S k' => x :: update_nth k' f r
+  end.
+Definition on_list (m : string) (g : list obj -> list obj) (d : obj) : obj :=
+  match lookup m (o_fields d) with
+  | Some (VObjs l) => with_field d m (VObjs (g l))
+  | _ => d
+  end.
+Definition m_remove (m : string) (k : nat) : obj -> obj := on_list m (remove_nth k).            (* del doc.m[k] *)
+Definition m_rename (m : string) (k : nat) (v : value) : obj -> obj :=                            (* doc.m[k].id = v *)
+  on_list m (update_nth k (fun o => Obj (o_cls o) (set_field F "id" v (o_fields o)))).
+Definition m_replace (m : string) (k : nat) (o : obj) : obj -> obj := on_list m (update_nth k (fun _ => o)).
+Definition m_append (m : string) (o : obj) : obj -> obj := on_list m (fun l => (l ++ [o])%list).
+
 End Super.
 
 (* ------------------------------------------------------------------ schema side (translators/tr_schema_members.py) *)
